@@ -32,9 +32,18 @@ def wire(prop, extra_assume=None):
     }
 
 
+def with_listen(spec):
+    """C01/C02 also go through a real socket served by varlink::listen (suite listen, concurrency mode)"""
+    spec = dict(spec)
+    spec["suites"] = spec["suites"] + [{"name": "listen", "nontrivial": r"\(out \(r "}]
+    spec["rule"] = spec["rule"] + ("; plus suite listen: the same request generators over real unix/abstract/TCP sockets served by "
+                                   "varlink::listen, 1..32 concurrent pipelining clients with random segmentation, each read to EOF after half-close")
+    return spec
+
+
 PROPS = {
-    "C01": wire("C01", ["`Proper` method implementations (continues* + one final, or failure) for the exactly-once clause"]),
-    "C02": wire("C02"),
+    "C01": with_listen(wire("C01", ["`Proper` method implementations (continues* + one final, or failure) for the exactly-once clause"])),
+    "C02": with_listen(wire("C02")),
     "C03": wire("C03"),
     "C04": wire("C04", ["client half (oneway() performs no read) is covered by C07's client model"]),
     "C05": wire("C05", ["replies handed to reply_struct are built by Reply::parameters/error (no continues member of their own)"]),
